@@ -224,6 +224,6 @@ REGISTRY.add(Contract(
         "implies(mode == 'block', self._last_sys_cpu_times == T2b * n and self._last_proc_cpu_times == pb)",
     ],
     raises={"ValueError": "mode == 'neg'"},
-    canaries=["result == 7.25"], replay=None,
+    canaries=["result == 7.25"], replay="c07:proc_cpu_percent",
     note="100*(CPU seconds used)/(wall seconds elapsed) since that object's previous call; 0.0 on the first call; "
          "negative interval -> ValueError"))
